@@ -1160,11 +1160,42 @@ func (e *Entry) Augment(addErrors bool) (processed, skipped int) {
 		// augment since the nodes have this namespace even though they
 		// are merged into another entry.
 		processed++
+		if taken := target.taken(a); len(taken) > 0 {
+			// An augment that brings a node whose name is taken is
+			// reported and not applied: none of its nodes is grafted,
+			// rather than those whose names happen to be free.
+			target.refuse(a, taken)
+			continue
+		}
 		target.merge(nil, a.Namespace(), a)
 		target.Augmented = append(target.Augmented, a.shallowDup())
 	}
 	e.Augments = unapplied
 	return processed, skipped
+}
+
+// taken returns, sorted, the names of the children of oe under which e has a
+// child already.
+func (e *Entry) taken(oe *Entry) []string {
+	var names []string
+	for k := range oe.Dir {
+		if e.Dir[k] != nil {
+			names = append(names, k)
+		}
+	}
+	sort.Strings(names)
+	return names
+}
+
+// refuse records on e that oe is not merged into it because e has children
+// under the names in taken already. The errors recorded on oe itself are kept.
+func (e *Entry) refuse(oe *Entry, taken []string) {
+	e.importErrors(oe)
+	for _, k := range taken {
+		e.addError(newError(oe.Node, `Duplicate node %q in %q from:
+   %s: %s
+   %s: %s`, k, e.Name, Source(oe.Dir[k].Node), k, Source(e.Dir[k].Node), e.Dir[k].Name).Errors[0])
+	}
 }
 
 // writtenBefore reports whether the statement of node a stands before that of
